@@ -37,9 +37,12 @@ class _TimeUp(BaseException):
 
 
 class time_limit:
-    """per-input watchdog (SIGALRM, main thread of the calling process): tokenizing or parsing one
-    short input takes microseconds; an input that keeps the implementation busy for seconds is
-    reported as non-termination (`internal: Timeout`) instead of hanging the check"""
+    """per-input watchdog (main thread of the calling process): tokenizing or parsing one short input takes
+    microseconds; an input that keeps the implementation busy for seconds OF CPU TIME is reported as
+    non-termination (`internal: Timeout`) instead of hanging the check.  The timer counts the CPU time of
+    this process (ITIMER_VIRTUAL / SIGVTALRM), not wall-clock time: a machine busy with other work cannot
+    make an ordinary input look like a hang, and the check's own wall-clock budget (SIGALRM) is a
+    different timer."""
 
     def __init__(self, seconds):
         self.seconds = seconds
@@ -51,10 +54,8 @@ class time_limit:
         def on_alarm(signum, frame):
             raise _TimeUp()
         try:
-            import time
-            self.t0 = time.monotonic()
-            self.old = signal.signal(signal.SIGALRM, on_alarm)
-            self.prev = signal.setitimer(signal.ITIMER_REAL, self.seconds)
+            self.old = signal.signal(signal.SIGVTALRM, on_alarm)
+            signal.setitimer(signal.ITIMER_VIRTUAL, self.seconds)
             self.armed = True
         except ValueError:      # not in the main thread: no watchdog
             self.armed = False
@@ -62,13 +63,8 @@ class time_limit:
 
     def __exit__(self, *exc):
         if self.armed:
-            self.signal.setitimer(self.signal.ITIMER_REAL, 0)
-            self.signal.signal(self.signal.SIGALRM, self.old)
-            # re-arm an outer alarm (the check's own budget) if there was one
-            if self.prev and self.prev[0] > 0:
-                import time
-                elapsed = time.monotonic() - self.t0
-                self.signal.setitimer(self.signal.ITIMER_REAL, max(self.prev[0] - elapsed, 1.0))
+            self.signal.setitimer(self.signal.ITIMER_VIRTUAL, 0)
+            self.signal.signal(self.signal.SIGVTALRM, self.old)
         return False
 
 
@@ -83,11 +79,13 @@ def _limit_for(text):
     return 2.0 + len(text) / 1000.0
 
 
-def impl_tok(text, pad):
+def impl_tok(text, pad, _retry=True):
     try:
-        with time_limit(_limit_for(text)):
+        with time_limit(_limit_for(text) * (1 if _retry else 5)):
             toks = T.Tokenizer(exclude_padding=not pad).tokenize(text)
     except _TimeUp:
+        if _retry and _TIMEOUTS[0] < 4:
+            return impl_tok(text, pad, _retry=False)      # confirm with five times the limit
         _TIMEOUTS[0] += 1
         return ("internal", "Timeout")
     except ValueError as e:
@@ -97,11 +95,13 @@ def impl_tok(text, pad):
     return ("toks", [(TT_NAMES.get(t.type, str(t.type)), t.value) for t in toks])
 
 
-def impl_parse(text):
+def impl_parse(text, _retry=True):
     try:
-        with time_limit(_limit_for(text)):
+        with time_limit(_limit_for(text) * (1 if _retry else 5)):
             tree = P.ExpressionParser().parse(text)
     except _TimeUp:
+        if _retry and _TIMEOUTS[0] < 4:
+            return impl_parse(text, _retry=False)      # confirm with five times the limit
         _TIMEOUTS[0] += 1
         return ("internal", "Timeout")
     except P.ParserException as e:
